@@ -123,6 +123,8 @@ def match_known(f, known):
             continue
         if 'when' in k and not all(p in preds for p in k['when']):
             continue
+        if 'input' in k and not re.search(k['input'], f.get('input', '')):
+            continue
         return k['id']
     return None
 
